@@ -62,10 +62,10 @@ impl Scenario {
     fn dmax(&self) -> Option<u32> {
         match self {
             Scenario::MtResult(_, d) => Some(*d),
-            // Long scripts (five samples in single steps on both sides) stay
-            // at two deviations: at three one such scenario alone is ten
+            // Long scripts (seven or more commit/consume steps in all) stay at
+            // two deviations: at three, one ten-step scenario alone is ten
             // million executions.
-            Scenario::Pc(p) if p.wscript.len() + p.rscript.len() >= 8 => Some(2),
+            Scenario::Pc(p) if p.wscript.len() + p.rscript.len() >= 7 => Some(2),
             _ => None,
         }
     }
